@@ -18,27 +18,27 @@ CHECKS = {
 CHECKS["C01"] = dict(
     technique="TLA+ reference semantics (LuaSem, CEK machine) evaluated step by step by TLC on every generated program; the real interpreter's recorded trace must be the trace the spec defines",
     category="model_checking",
-    text="Each generated program (random type-directed; multiple-assignment shapes; operator x operand-kind x destination-kind; padded with many locals/constants) is run on the real lexer+parser+compiler+VM and its observable trace (emit values, results, error line) is validated by TLC against the explicit TLA+ semantics LuaSem; every candidate is reproduced on a fresh interpreter before it is reported.",
+    text="Each generated program (random type-directed; multiple-assignment shapes; operator x operand-kind x destination-kind; padded with many locals/constants) is run on the real lexer+parser+compiler+VM and its observable trace (emit values, results, error line) is validated by TLC against the explicit TLA+ semantics LuaSem; every candidate is reproduced on a fresh interpreter before it is reported. In addition every program's run is recorded instruction by instruction (state before each instruction of the main thread, through the deterministic context's dispatch poll) and TLC judges each distinct step against FramesStep.tla: a live, uncaptured local changes only if the instruction names its register as a target, and a readable local stays below the register top.",
     design_ref="DESIGN.md section 3.4, 4 C01",
     note="Trusted: TLC, the Go runner (emit/outcome normalisation), the Python AST renderer. Bounded: integer-valued numbers |n|<2^30 (other runs are inconclusive and counted), programs of ~20-200 nodes, seeded sampling of the shape families (exhaustive 2-target assignments in the thorough tier).",
-    specs=["LuaValues", "LuaNames", "LuaSem", "LuaSemTrace"])
+    specs=["LuaValues", "LuaNames", "LuaSem", "LuaSemTrace", "FramesStep", "FramesStepTrace", "FramesStepMC"])
 
 LSEM_NOTE = "Trusted: TLC, the Go runner (emit/outcome normalisation), the Python AST renderer. Bounded: integer-valued numbers |n|<2^30 (other runs are inconclusive and counted), seeded sampling of the stated families."
 CHECKS["C02"] = dict(
     technique="LuaSem call rules (Adjust by context, varargs, arg table, __call, method sugar, host callees) evaluated by TLC on enumerated call shapes; real traces validated by LuaSemTrace",
     category="model_checking",
-    text="The product #params x parameter style x #args x 21 result contexts x #results x callee kind (Lua, __call object, host, method, host re-entry) is enumerated (sampled in the quick tier), each shape rendered to Lua, run on the real interpreter and its trace validated by TLC against LuaSem; plus random nestings, random programs with functions, and tail-call loops 15x deeper than CallStackSize on both call-stack implementations.",
-    design_ref="DESIGN.md section 4 C02", note=LSEM_NOTE, specs=["LuaSem", "LuaSemTrace"])
+    text="The product #params x parameter style x #args x 21 result contexts x #results x callee kind (Lua, __call object, host, method, host re-entry) is enumerated (sampled in the quick tier), each shape rendered to Lua, run on the real interpreter and its trace validated by TLC against LuaSem; plus random nestings, random programs with functions, and tail-call loops 15x deeper than CallStackSize on both call-stack implementations. In addition every program's run is recorded instruction by instruction (state before each instruction of the main thread, through the deterministic context's dispatch poll) and TLC judges each distinct step against FramesStep.tla: a live, uncaptured local changes only if the instruction names its register as a target, and a readable local stays below the register top.",
+    design_ref="DESIGN.md section 4 C02", note=LSEM_NOTE, specs=["LuaSem", "LuaSemTrace", "FramesStep", "FramesStepTrace"])
 CHECKS["C03"] = dict(
     technique="LuaSem variable cells and fenv rules evaluated by TLC on the capture x exit-path family; real traces validated by LuaSemTrace",
     category="model_checking",
-    text="Every valid combination of (construct in which a closure is created) x (route by which the scope is left, incl. errors caught by pcall/xpcall and coroutine suspension/death) x (sharing pattern) is rendered with register churn before the closures are used; the real trace must equal the one LuaSem defines (fresh cell per declaration execution, shared between closures, surviving the scope). fenv programs and random closure programs likewise.",
-    design_ref="DESIGN.md section 4 C03", note=LSEM_NOTE, specs=["LuaSem", "LuaSemTrace"])
+    text="Every valid combination of (construct in which a closure is created) x (route by which the scope is left, incl. errors caught by pcall/xpcall and coroutine suspension/death) x (sharing pattern) is rendered with register churn before the closures are used; the real trace must equal the one LuaSem defines (fresh cell per declaration execution, shared between closures, surviving the scope). fenv programs and random closure programs likewise. In addition every program's run is recorded instruction by instruction (state before each instruction of the main thread, through the deterministic context's dispatch poll) and TLC judges each distinct step against FramesStep.tla: a live, uncaptured local changes only if the instruction names its register as a target, and a readable local stays below the register top.",
+    design_ref="DESIGN.md section 4 C03", note=LSEM_NOTE, specs=["LuaSem", "LuaSemTrace", "FramesStep", "FramesStepTrace"])
 CHECKS["C04"] = dict(
     technique="LuaSem metatable rules (manual 2.8) evaluated by TLC on the operand-type x operator x handler-presence family; real traces validated by LuaSemTrace",
     category="model_checking",
-    text="Handlers emit their tag and the operands they receive; for operand pairs over 11 value kinds, every binary operator, 5 handler-presence configurations and several handler result kinds the real trace (handler chosen, operand order, result conversion, error or not) must be the one LuaSem defines; __index/__newindex chains, __call positions, <= fallback, unary minus, tostring/__metatable likewise.",
-    design_ref="DESIGN.md section 4 C04", note=LSEM_NOTE, specs=["LuaSem", "LuaSemTrace"])
+    text="Handlers emit their tag and the operands they receive; for operand pairs over 11 value kinds, every binary operator, 5 handler-presence configurations and several handler result kinds the real trace (handler chosen, operand order, result conversion, error or not) must be the one LuaSem defines; __index/__newindex chains, __call positions, <= fallback, unary minus, tostring/__metatable likewise. In addition every program's run is recorded instruction by instruction (state before each instruction of the main thread, through the deterministic context's dispatch poll) and TLC judges each distinct step against FramesStep.tla: a live, uncaptured local changes only if the instruction names its register as a target, and a readable local stays below the register top.",
+    design_ref="DESIGN.md section 4 C04", note=LSEM_NOTE, specs=["LuaSem", "LuaSemTrace", "FramesStep", "FramesStepTrace"])
 
 CHECKS["C05"] = dict(
     technique="fault enumeration at every VM instruction boundary, each faulted run explained by TLC through fault injection into the TLA+ semantics (LuaSemFault), non-decreasing in the fault point; error-value family validated by LuaSemTrace",
@@ -56,8 +56,8 @@ CHECKS["C16"] = dict(
 CHECKS["C06"] = dict(
     technique="LuaSem coroutine rules (continuation per thread, status machine, value transfer) evaluated by TLC on generated coroutine scripts; status-machine invariants (CoInv) checked by TLC on every state; real traces validated by LuaSemTrace",
     category="model_checking",
-    text="Scripts over 1-3 coroutines (create/wrap) whose bodies yield, resume any coroutine (incl. resumer, self, dead), query status, yield from nested/tail calls, loop with locals across yields, return or fail, driven by a main script, are run on the real interpreter; the trace (payload order and number, statuses, error propagation) must be the one LuaSem defines, and TLC checks on every spec state that exactly one thread runs, normal = resumer chain, dead keeps nothing.",
-    design_ref="DESIGN.md section 4 C06", note=LSEM_NOTE + " No yield across pcall/metamethods/iterators (Lua 5.1 rejects it).", specs=["LuaSem", "LuaSemTrace"])
+    text="Scripts over 1-3 coroutines (create/wrap) whose bodies yield, resume any coroutine (incl. resumer, self, dead), query status, yield from nested/tail calls, loop with locals across yields, return or fail, driven by a main script, are run on the real interpreter; the trace (payload order and number, statuses, error propagation) must be the one LuaSem defines, and TLC checks on every spec state that exactly one thread runs, normal = resumer chain, dead keeps nothing. In addition every program's run is recorded instruction by instruction (state before each instruction of the main thread, through the deterministic context's dispatch poll) and TLC judges each distinct step against FramesStep.tla: a live, uncaptured local changes only if the instruction names its register as a target, and a readable local stays below the register top.",
+    design_ref="DESIGN.md section 4 C06", note=LSEM_NOTE + " No yield across pcall/metamethods/iterators (Lua 5.1 rejects it).", specs=["LuaSem", "LuaSemTrace", "FramesStep", "FramesStepTrace"])
 CHECKS["C11"] = dict(
     technique="design spec Cancel model-checked by TLC (dispatch bound, liveness); cancellation at every dispatch poll of a looping corpus on the real VM judged by TLC (LuaSemCancel) against the prefix of the uncancelled TLA+ behaviour; bounded-wait runs for blocking channel operations",
     category="model_checking",
